@@ -809,14 +809,14 @@ def body(R):
     try:
         all_forms = FORMS_ANY + FORMS_LONE
         if R.thorough:
-            scope_single_free(R, 4, 4, [(0, 0), (1, 1), (2, 0), (0, 2), (2, 2)], all_forms, "Sequence / Source / alter_sequence / Split")
+            scope_single_free(R, 4, 4, [(0, 0), (1, 1), (2, 0), (0, 2)], all_forms, "Sequence / Source / alter_sequence / Split")
             scope_single_crash(R, 4, [(u, d) for u in range(3) for d in range(3)], all_forms, "Sequence / Source / alter_sequence / Split")
             scope_two_free(R, [0, 1, 3], 3, [(u, m, d) for u in (0, 1) for m in (0, 1) for d in (0, 1)],
                            ["seq", "source", "cache_alter_seq", "cache_alter_source", "cache_alter_nested", "core_alter_seq", "split_seq", "split_source"])
             scope_two_crash(R, [0, 1, 2, 3], [(u, m, d) for u in (0, 1) for m in (0, 1) for d in (0, 1)],
                             ["seq", "source", "cache_alter_seq", "cache_alter_source", "cache_alter_nested", "core_alter_seq", "split_seq", "split_source"])
             scope_pickle(R, 4)
-            scope_random(R, 20000, 8, 8)
+            scope_random(R, 12000, 8, 8)
         else:
             scope_single_free(R, 2, 3, [(0, 0), (1, 1), (2, 2)], all_forms, "Sequence / Source / alter_sequence / Split")
             scope_single_crash(R, 3, [(0, 0), (1, 1)], all_forms, "Sequence / Source / alter_sequence / Split")
